@@ -11,7 +11,7 @@ MUTANTS = [
     # c05-complete-for-cancelled-event: equivalent (the statement promises nothing about a cancelled event's own complete)
     ('c05-child-not-linked-when-nested-complete', 'C05', M, "            if not getattr(event, 'cause', None):\n                event.cause = event", "            event.cause = event"),
     ('c05-complete-fired-twice-on-stop', 'C05', M, "            if event.stopped:\n                break  # Stop further event processing", "            if event.stopped:\n                self._effectsDone(event)\n                break  # Stop further event processing"),
-    ('c05-raise-skips-effects', 'C05', M, "        self._currently_handling = None\n        self._eventDone(event, err)", "        self._currently_handling = None\n        if err is None or not getattr(event, 'cause', None):\n            self._eventDone(event, err)"),
+    ('c05-raise-skips-effects', 'C05', M, "        self._currently_handling = handling\n        self._eventDone(event, err)", "        self._currently_handling = handling\n        if err is None or not getattr(event, 'cause', None):\n            self._eventDone(event, err)"),
     # revert of repair 2e2b7b6
     ('c05-revert-tick-marks-thread-for-tasks', 'C05', M, "                self._flushing_thread = current_thread()\n                for task in self._tasks.copy():", "                for task in self._tasks.copy():"),
     ('c05-sleeping-handler-not-counted-as-waiting', 'C05', M, '                # TODO: The subtask is considered a "waiting handler"\n                event.waitingHandlers += 1\n', '                # TODO: The subtask is considered a "waiting handler"\n'),
